@@ -271,12 +271,16 @@ def correspond(ctx):
             x, z, Y = M.make_data2d(rng, m, n)
             lamr, lamc = float(10.0 ** int(rng.integers(0, 4))), float(10.0 ** int(rng.integers(0, 4)))
             W0 = np.round(rng.uniform(0.2, 1, (m, n)) * 64) / 64
-            for mode, kw in (('first-solve', dict(tol=np.inf, weights=W0)), ('converged', dict(tol=1e-3, max_iter=60))):
+            # the same numbers in every memory layout (C / Fortran order, transposed and strided views), independently for the data
+            # and the weights: the documented system is about the logical arrays
+            lay_y, lay_w = M.LAYOUTS[int(rng.integers(0, 4))], M.LAYOUTS[int(rng.integers(0, 4))]
+            ctx.count(f'2d-pair-layout:data={lay_y},weights={lay_w}')
+            for mode, kw in (('first-solve', dict(tol=np.inf, weights=M.layout_variant(W0, lay_w))), ('converged', dict(tol=1e-3, max_iter=60))):
                 if host == 'brpls':
                     kw = dict(kw, tol_2=kw['tol'])
                 try:
                     with np.errstate(all='ignore'):
-                        b, p = getattr(Baseline2D(x, z), host)(Y, lam=(lamr, lamc), diff_order=(dr, dc), num_eigens=None, **kw)
+                        b, p = getattr(Baseline2D(x, z), host)(M.layout_variant(Y, lay_y), lam=(lamr, lamc), diff_order=(dr, dc), num_eigens=None, **kw)
                 except Exception as ex:
                     ctx.count('2d-pair-raised:' + type(ex).__name__)
                     continue
@@ -289,7 +293,9 @@ def correspond(ctx):
                 ctx.count('host2d-pair:' + host)
                 lines.append(f'c06.berr2d {m} {n} {dr} {dc} {q(lamr)} {q(lamc)} {qs(np.asarray(p["weights"], float).ravel())} {qs(Y.ravel())} {qs(np.asarray(b).ravel())}')
                 metas.append(('berr', {'host': '2d.' + host, 'kind': '2d', 'shape': [m, n], 'd': [dr, dc], 'lam': [lamr, lamc], 'step': 'returned pair (' + mode + ')',
-                                       'kw': {}, 'x': [], 'y': []}))
+                                       'kw': {}, 'x': [], 'y': [], 'layout': [lay_y, lay_w],
+                                       'call2d': {'host': host, 'x': x.tolist(), 'z': z.tolist(), 'data': Y.tolist(), 'mode': mode,
+                                                  'weights': W0.tolist() if mode == 'first-solve' else None}}))
     # 2-D with eigendecomposition: each solve must be the Galerkin solution of the documented system in the eigenbasis
     # of EACH axis' own penalty (certificate with independently computed dense eigenvectors; see also C20)
     from .c20 import galerkin_check
@@ -350,4 +356,31 @@ def search(ctx, hints, lean_failed):
 
 
 def replay(ctx, data):
-    return None
+    """re-executes the 2-D returned-pair cases: the public call in the recorded memory layouts, then the backward error of
+    (returned baseline, returned weights) against the documented Kronecker system in double precision (dense)"""
+    r = data.get('replay', {})
+    c = r.get('call2d')
+    if not c:
+        return None
+    from pybaselines import Baseline2D
+    from pybaselines.utils import difference_matrix
+    Y = np.array(c['data'], dtype=float)
+    m, n = Y.shape
+    (dr, dc), (lamr, lamc) = r['d'], r['lam']
+    lay_y, lay_w = r.get('layout', ['C', 'C'])
+    kw = dict(tol=np.inf, weights=M.layout_variant(np.array(c['weights']), lay_w)) if c['mode'] == 'first-solve' else dict(tol=1e-3, max_iter=60)
+    if c['host'] == 'brpls':
+        kw['tol_2'] = kw['tol']
+    try:
+        with np.errstate(all='ignore'):
+            b, p = getattr(Baseline2D(np.array(c['x']), np.array(c['z'])), c['host'])(M.layout_variant(Y, lay_y), lam=(lamr, lamc), diff_order=(dr, dc), num_eigens=None, **kw)
+    except Exception as ex:      # noqa: BLE001
+        return None
+    Dr, Dc = difference_matrix(m, dr).toarray(), difference_matrix(n, dc).toarray()
+    P = lamr * np.kron(Dr.T @ Dr, np.eye(n)) + lamc * np.kron(np.eye(m), Dc.T @ Dc)
+    w = np.asarray(p['weights'], dtype=float).ravel()
+    A = np.diag(w) + P
+    v = np.asarray(b, dtype=float).ravel()
+    rhs = w * Y.ravel()
+    be = float(np.max(np.abs(A @ v - rhs)) / (np.max(np.sum(np.abs(A), axis=1)) * np.max(np.abs(v)) + np.max(np.abs(rhs))))
+    return f'2-D {c["host"]} ({c["mode"]}, layouts {lay_y}/{lay_w}): backward error {be:.3g}' if be > 1e-9 else None
